@@ -263,8 +263,11 @@ func kindOf(t *typ) string {
 		n = len(typeTags) + 1
 		typeTags[t.gm] = n
 	}
-	if t.kind == "KBox" {
+	switch t.kind {
+	case "KBox":
 		return fmt.Sprintf("(KBoxT %d)", n)
+	case "KCplx":
+		return fmt.Sprintf("(KCplxT %d)", n)
 	}
 	return fmt.Sprintf("(KInt1T %d)", n)
 }
